@@ -5,6 +5,7 @@ package harness
 import (
 	"encoding/json"
 	"fmt"
+	"math"
 	"os"
 	"reflect"
 	"runtime"
@@ -68,6 +69,7 @@ func deepReadDepth(v interface{}, depth int) int {
 //	oneshot    the one-shot Search from all goroutines on the same document
 //	mixed      compiled searches while other goroutines Compile and search other expressions
 //	reader     searches on a shared document while another goroutine deep-reads it
+//
 // predConcurrentStruct: a compiled expression shared by goroutines searching a
 // Go struct document (field lookups go through reflection). No reference model:
 // every goroutine's JSON-normalised result must equal the sequential one.
@@ -212,7 +214,7 @@ func predConcurrent(c Case) (r Result) {
 	ownErr := make([]bool, G)
 	ownAmb := make([]bool, G)
 	for g := 0; g < G; g++ {
-		ownDocs[g] = varyDoc(orig, g%3)
+		ownDocs[g] = varyDoc(orig, g%5)
 		e2 := &ref.Ev{}
 		w, werr2 := e2.Eval(n, ref.DeepCopy(ownDocs[g]))
 		ownWant[g], ownErr[g], ownAmb[g] = w, werr2 != nil, e2.Ambiguous
@@ -718,7 +720,6 @@ func TestC13(t *testing.T) {
 	})
 }
 
-
 // rapidBool reads an optional boolean from the case's Extra (default when absent).
 func rapidBool(c Case, key string, def bool) bool {
 	if v, ok := c.Extra[key].(bool); ok {
@@ -726,7 +727,6 @@ func rapidBool(c Case, key string, def bool) bool {
 	}
 	return def
 }
-
 
 // varyDoc derives a variant of a document: 0 = copy, 1 = every array concatenated
 // with itself, 2 = every array truncated to its first element.
@@ -746,6 +746,10 @@ func varyDoc(v interface{}, mode int) interface{} {
 			if len(out) > 1 {
 				out = out[:1]
 			}
+		case 3:
+			for i, j := 0, len(out)-1; i < j; i, j = i+1, j-1 {
+				out[i], out[j] = out[j], out[i]
+			}
 		}
 		return out
 	case map[string]interface{}:
@@ -754,6 +758,31 @@ func varyDoc(v interface{}, mode int) interface{} {
 			out[k] = varyDoc(e, mode)
 		}
 		return out
+	case float64:
+		// modes 3 and 4: the same shape with other values of the same type (what a cache keyed
+		// by value, or by something coarser than the value, would confuse)
+		switch mode {
+		case 3:
+			if t == 0 {
+				return -t // the other zero
+			}
+			if math.IsInf(t*1e21, 0) {
+				return t // stay inside JSON data
+			}
+			return t * 1e21
+		case 4:
+			if t == 0 {
+				return -t
+			}
+			return t * 1e-9
+		}
+	case string:
+		switch mode {
+		case 3:
+			return "\ufffd" + t
+		case 4:
+			return t + "𝄞\u0301"
+		}
 	}
 	return v
 }
